@@ -9,7 +9,7 @@ string tokens as lists of `JItem`s (`stringText` = spelling, `denote` = the stri
 Models (transcribed from the code): CueVerif/Model/Json.lean on top of the C09 models —
 decoder: the CUE scanner's string lexing (`scanStringTok`) + `literal.Unquote`
 (`Quote.unquote`) = `decodeString`; the scanner's / `literal.ParseNum`'s number automata + apd
-`SetString` (its error is ignored by `NumInfo.decimal`) + unary minus = `decodeNumber`;
+`SetString` (an error rejects the literal) + unary minus = `decodeNumber`;
 encoder: Go's `appendString` without HTML escaping = `jsonEscape`, apd's 'G' format = `fmtG`.
 
 Arrays/objects, key order, duplicate keys and nesting are NOT modelled (the CUE parser and
@@ -20,8 +20,9 @@ Three statements are FALSE on the unchanged tree; each is kept as `…_stmt`, re
 witness that the harness replays on the implementation, and proved with the excluded region as
 hypothesis:
   * a raw U+FEFF inside a string is rejected by the scanner (class string-raw-bom),
-  * a number whose exponent leaves apd's limits ±100000 silently loses its exponent
-    (class number-exponent-out-of-apd-range),
+  * a number whose exponent leaves apd's limits ±100000 is rejected — exactly outside
+    `JNum.inApdRange`, and never read as another value (class
+    number-exponent-out-of-apd-range-rejected; before commit 1674508 it silently lost its exponent),
   * lone surrogate escapes are rejected (informational: such a token is not Unicode text and is
     excluded from the property by `wellPaired`).
 -/
@@ -99,15 +100,21 @@ theorem C10_number_embed (n : JNum) (hwf : n.wf = true) :
 /-- The full value statement: the decoder reads every number token as exactly the decimal it
 denotes (`-0` → `0`) … -/
 def C10_number_value_stmt : Prop := number_value_stmt
-/-- … is FALSE on the unchanged tree: `1e100001` is read as `1` (apd's SetString fails on an
-exponent beyond ±100000 and `NumInfo.decimal` ignores the error).  Genuine defect, silent
-change of data; class number-exponent-out-of-apd-range. -/
+/-- … is FALSE on the unchanged tree: `1e100001` is REJECTED (apd's SetString fails on an
+exponent beyond ±100000 and, since commit 1674508, `NumInfo.decimal` returns that error; before
+the commit the error was discarded and the number silently read as `1`).  Still a deviation
+from "any number spelling is accepted"; class number-exponent-out-of-apd-range-rejected. -/
 theorem C10_number_value_false : ¬ C10_number_value_stmt := number_value_false
-/-- Within apd's limits (written exponent, number of fraction digits and adjusted exponent all
-within ±100000) the decoder reads exactly the denoted decimal, coefficient digit for digit. -/
+/-- Within apd's limits (written exponent, number of fraction digits, adjusted exponent and
+resulting exponent all within ±100000) the decoder reads exactly the denoted decimal,
+coefficient digit for digit … -/
 theorem C10_number_value_partial (n : JNum) (hwf : n.wf = true) (hr : n.inApdRange) :
     decodeNumber n.text = some (n.kind, .finite (n.neg && n.coeff != 0) n.coeff n.exponent) :=
   number_value n hwf hr
+/-- … and outside them it always rejects: a JSON number is NEVER read as a different value. -/
+theorem C10_number_value_reject (n : JNum) (hwf : n.wf = true) (hr : ¬ n.inApdRange) :
+    decodeNumber n.text = none :=
+  number_reject n hwf hr
 
 -- non-vacuity: `-12.50E+400` meets the hypotheses
 example :
